@@ -689,6 +689,9 @@ func c08free(c *fw.Ctx) {
 				if atomic.LoadInt32(&inCommit) > 0 {
 					atomic.AddInt64(&overlapping, 1)
 				}
+				if n%16 == 5 {
+					_, _ = sc.Stats() // the counters are read by monitoring code while blocks commit
+				}
 				var v statecache.Value
 				var ok bool
 				if rr.Intn(4) == 0 {
